@@ -126,7 +126,7 @@ func (e *Engine) checkPartialLoad(salt uint64) error {
 				if err != nil || ck != want[i] {
 					return e.viol("partially loaded map#%d: position %d holds key %v, expected %s", r.ID, i, gotK[i], short(want[i]))
 				}
-				if err := cmpValue(got[i], r.Ents[ck].V, fmt.Sprintf("partially loaded map#%d value of %s", r.ID, short(ck)), CmpOpts{}); err != nil {
+				if err := cmpValue(got[i], r.Ents[ck].V, fmt.Sprintf("partially loaded map#%d value of %s", r.ID, short(ck)), CmpOpts{Hip: e.CB.PlainHIP}); err != nil {
 					return e.viol("%v", err)
 				}
 			}
@@ -178,7 +178,7 @@ func (e *Engine) checkPartialLoad(salt uint64) error {
 			return e.viol("partially loaded array#%d (%d of %d slabs loaded): iterator yields %d elements, expected %d", r.ID, len(loaded), len(ref.Order), len(got), len(want))
 		}
 		for i := range got {
-			if err := cmpValue(got[i], r.Elems[want[i]], fmt.Sprintf("partially loaded array#%d element %d", r.ID, want[i]), CmpOpts{}); err != nil {
+			if err := cmpValue(got[i], r.Elems[want[i]], fmt.Sprintf("partially loaded array#%d element %d", r.ID, want[i]), CmpOpts{Hip: e.CB.PlainHIP}); err != nil {
 				return e.viol("%v", err)
 			}
 		}
@@ -201,7 +201,7 @@ func countEntriesUnder(si *SI) uint64 {
 	case kMapData, kCollGroup:
 		n = si.Count
 		for _, k := range si.Kids {
-			if k.Kind == kCollGroup {
+			if k.Kind == kCollGroup && !k.NestedGroup {
 				n += countEntriesUnder(k)
 			}
 		}
@@ -234,7 +234,7 @@ func (e *Engine) mutateWhileIterating(salt uint64) error {
 					return false, nil
 				}
 				ent := r.Ents[ck]
-				if err := cmpValue(v, ent.V, fmt.Sprintf("iterated value of %s", short(ck)), CmpOpts{CheckVID: true}); err != nil {
+				if err := cmpValue(v, ent.V, fmt.Sprintf("iterated value of %s", short(ck)), e.co()); err != nil {
 					ferr = e.viol("%v", err)
 					return false, nil
 				}
@@ -260,7 +260,7 @@ func (e *Engine) mutateWhileIterating(salt uint64) error {
 					ferr = e.viol("mutable iteration with in-flight mutation yields more than %d elements", total)
 					return false, nil
 				}
-				if err := cmpValue(v, r.Elems[i], fmt.Sprintf("iterated element %d", i), CmpOpts{CheckVID: true}); err != nil {
+				if err := cmpValue(v, r.Elems[i], fmt.Sprintf("iterated element %d", i), e.co()); err != nil {
 					ferr = e.viol("%v (an element was skipped or repeated?)", err)
 					return false, nil
 				}
@@ -355,6 +355,7 @@ func init() {
 			CollLimits: []uint32{255},
 		})
 		g.DigRootsPct = 40
+		g.HipGroupsPct = 25
 		return g
 	}
 	registerEngine(engPropSpec{
